@@ -1,6 +1,7 @@
 import Holpy.C16.Model
 import Holpy.C16.Gen
 import Holpy.C16.Proofs
+import Holpy.C16.OmegaSound
 /-
 C16 — property theorems.  Rows are omega.py factoids `[c₁,…,cₙ,c₀]` meaning `0 ≤ Σ cᵢ·xᵢ₋₁ + c₀`.
 `Sat rows v` : the integer assignment `v` satisfies every row.  `evalRowQ r v` : value of a row
@@ -75,5 +76,27 @@ example : checkDeriv [[2, -1], [-2, 1]] (.directContr (.gcdCheck (.asm [-2, 1]))
   decide
 example : checkDeriv [[1, 1, -3], [-1, 1, 0], [0, -1, 1]]
     (.realCombine 1 (.realCombine 0 (.asm [1, 1, -3]) (.asm [-1, 1, 0])) (.asm [0, -1, 1])) = true := by decide
+
+/-- The model of `solve_matrix` (omega.py after fix C16-1; every fuel, every matrix whose rows have
+one common width) answers `Contr d` only with a derivation `d` that the checker accepts: assumptions
+are input rows, every `RealCombine`/`GCDCheck`/`DirectContr` step is legal, the last row is `0 ≤ c`
+with `c < 0`.  Contradictions found while exploring dark shadows are never returned. -/
+theorem omega_contr_sound (fuel : Nat) (rows : List Row) (w : Nat) (hw : ∀ r ∈ rows, r.length = w)
+    (d : Deriv) (h : solveMatrix fuel rows = .contr d) : checkDeriv rows d = true := by
+  cases rows with
+  | nil => simp [solveMatrix] at h
+  | cons r0 rs =>
+    simp only [solveMatrix] at h
+    exact solve_sound (r0 :: rs) w fuel .exact _ _ d (Or.inr rfl)
+      (initDb_good (r0 :: rs) w (r0 :: rs) [] (fun r hr => ⟨hr, hw r hr⟩) (by intro df hdf; simp [flat] at hdf)) h
+
+/-- … hence `Contr` is answered only for systems without integer solution. -/
+theorem omega_contr_no_solution (fuel : Nat) (rows : List Row) (w : Nat) (hw : ∀ r ∈ rows, r.length = w)
+    (d : Deriv) (h : solveMatrix fuel rows = .contr d) : ¬ ∃ v : Nat → Int, Sat rows v :=
+  checkDeriv_sound rows d (omega_contr_sound fuel rows w hw d h)
+
+-- non-vacuity: the model does answer `Contr` (parity: 2x = 1; and a two-variable elimination)
+example : (solveMatrix 5 [[2, -1], [-2, 1]]).isContr = true := by decide
+example : (solveMatrix 5 [[1, 1, -3], [-1, 1, 0], [0, -1, 1]]).isContr = true := by decide
 
 end Holpy.C16
